@@ -113,20 +113,21 @@ type Verdict struct {
 
 // Stats collected during a run.
 type Stats struct {
-	Steps          int
-	ChoiceSteps    int            // steps at which >= 2 goroutines were parked
-	MaxParked      int            // largest parked set seen
-	SitePark       map[Site]int   // how often each site was chosen
-	Switches       map[uint32]int // (prev site<<16 | next site) -> count
-	StallSteps     int            // steps at which a starved victim was parked and passed over
-	Snapshots      int
-	SnapshotRetry  int
-	MaxGoroutines  int
-	QuiesceNanos   int64
-	ChoicesTaken   []int // index chosen at every step (into sorted parked set)
-	ParkedSizes    []int
-	RecordChoices  bool
-	DistinctLabels int
+	Steps           int
+	ChoiceSteps     int            // steps at which >= 2 goroutines were parked
+	MaxParked       int            // largest parked set seen
+	SitePark        map[Site]int   // how often each site was chosen
+	Switches        map[uint32]int // (prev site<<16 | next site) -> count
+	StallSteps      int            // steps at which a starved victim was parked and passed over
+	Snapshots       int
+	SnapshotRetry   int
+	MaxGoroutines   int
+	QuiesceNanos    int64
+	ChoicesTaken    []int // index chosen at every step (into sorted parked set)
+	ParkedSizes     []int
+	RecordChoices   bool
+	DistinctLabels  int
+	DuplicateLabels int
 }
 
 // Sim is one simulated execution.
@@ -142,6 +143,7 @@ type Sim struct {
 	panics   []string
 	siteOn   [256]bool
 	siteMod  [256]uint32 // park only when hash%mod==0 (0/1 => always)
+	DupOK    [256]bool   // sites at which identical labels are tolerated
 	Policy   Policy
 	StepCap  int
 	Deadline time.Time
@@ -414,10 +416,18 @@ func (s *Sim) Run() Verdict {
 			}
 			return Verdict{Kind: "deadlock", Detail: "top-level call has not returned, nothing is parked and every goroutine is blocked", Blocked: stuck, Steps: s.Stats.Steps, TraceHash: s.hash}
 		}
-		sort.Slice(entries, func(i, j int) bool { return labelLess(entries[i].lab, entries[j].lab) })
+		sort.SliceStable(entries, func(i, j int) bool { return labelLess(entries[i].lab, entries[j].lab) })
 		for i := 1; i < len(entries); i++ {
 			if entries[i].lab == entries[i-1].lab {
-				return Verdict{Kind: "duplicate-label", Detail: "two goroutines parked with the same label (harness bug)", Steps: s.Stats.Steps, TraceHash: s.hash}
+				// Two goroutines at the same site with the same key. For sites
+				// in DupOK (evaluation wrappers) this means the program under
+				// test evaluates one point twice at the same time: tolerated,
+				// counted, and left to the oracles. Anywhere else it is a
+				// harness bug.
+				if !s.DupOK[entries[i].lab.Site&255] {
+					return Verdict{Kind: "duplicate-label", Detail: "two goroutines parked with the same label (harness bug)", Steps: s.Stats.Steps, TraceHash: s.hash}
+				}
+				s.Stats.DuplicateLabels++
 			}
 		}
 		labs := make([]Label, len(entries))
